@@ -36,8 +36,11 @@ def namedef(x, always_rename=False, display=None):
 
 
 def render(ad, refcase="decl", always_rename=False, libref_same="present", bus=None, comments=False,
-           design_case="decl"):
-    """bus: {(cell, net): (permutation of bit positions, subset kept)} rendering of bus nets."""
+           design_case="decl", rich=False):
+    """bus: {(cell, net): (permutation of bit positions, subset kept)} rendering of bus nets.
+    rich: the same design with the other constructs of the supported subset around it: a library of leaf
+    cells declared (external ...), status blocks in library / cell / view, properties on cells, views, ports
+    and nets, integer instance properties spelled (number N), string ones carrying an (owner ...)."""
     bus = bus or {}
     o = []
     w = o.append
@@ -49,11 +52,17 @@ def render(ad, refcase="decl", always_rename=False, libref_same="present", bus=N
         for d in lib["defs"]:
             ids[(lib["name"], d["name"])] = (idof(lib), idof(d))
     for lib in ad["libs"]:
-        w(" (library %s (edifLevel 0) (technology (numberDefinition))" % namedef(lib, always_rename))
+        leafonly = all(not d.get("insts") and not d.get("nets") for d in lib["defs"])
+        w(" (%s %s (edifLevel 0) (technology (numberDefinition))" % ("external" if rich and leafonly else "library", namedef(lib, always_rename)))
+        if rich:
+            w('  (status (written (timeStamp 2021 2 3 4 5 6) (author "a") (program "p" (version "v"))))')
         if comments:
             w('  (comment "library comment")')
         for d in lib["defs"]:
             w("  (cell %s (cellType GENERIC)" % namedef(d, always_rename))
+            if rich:
+                w('   (status (written (timeStamp 2021 2 3 4 5 7)))')
+                w('   (property CELLP (string "on the cell"))')
             w("   (view netlist (viewType NETLIST)")
             w("    (interface")
             pid = {}
@@ -61,6 +70,8 @@ def render(ad, refcase="decl", always_rename=False, libref_same="present", bus=N
                 pid[p["name"]] = idof(p)
                 dirs = {"in": "INPUT", "out": "OUTPUT", "inout": "INOUT"}
                 dr = " (direction %s)" % dirs[p["dir"]] if p["dir"] in dirs else ""
+                if rich:
+                    dr += ' (property PORTP (integer 4)) (comment "port comment")'
                 if p.get("array", p["width"] > 1):
                     lo = p.get("lower", 0)
                     disp = p.get("display") or ("%s[%d:%d]" % (p["name"], lo + p["width"] - 1, lo) if (lo or p.get("range")) else None)
@@ -85,9 +96,9 @@ def render(ad, refcase="decl", always_rename=False, libref_same="present", bus=N
                         if isinstance(pv, bool):
                             tv = "(boolean (%s))" % ("true" if pv else "false")
                         elif isinstance(pv, int):
-                            tv = "(integer %d)" % pv
+                            tv = ("(number %d)" if rich else "(integer %d)") % pv
                         else:
-                            tv = '(string "%s")' % pv
+                            tv = '(string "%s")' % pv + (' (owner "Xilinx")' if rich else "")
                         w("      (property %s %s)" % (namedef({"name": pn}), tv))
                     w("     )")
                     if comments:
@@ -108,19 +119,22 @@ def render(ad, refcase="decl", always_rename=False, libref_same="present", bus=N
                     body = "(member %s %d)" % (pn, bit) if pd.get("array", pd["width"] > 1) else pn
                     return "(portRef %s%s)" % (body, " (instanceRef %s)" % inst if inst else "")
 
+                netp = ' (property NETP (string "on the net")) (comment "net comment")' if rich else ""
                 for net in d.get("nets", ()):
                     lo = net.get("lower", 0)
                     isbus = net.get("array", len(net["bits"]) > 1)
                     if not isbus:
-                        w("     (net %s (joined %s))" % (namedef(net, always_rename), " ".join(portref(e) for e in net["bits"][0])))
+                        w("     (net %s (joined %s)%s)" % (namedef(net, always_rename), " ".join(portref(e) for e in net["bits"][0]), netp))
                         continue
                     perm, keep = bus.get((d["name"], net["name"]), (tuple(range(len(net["bits"]))), tuple(range(len(net["bits"])))))
                     for k in perm:
                         if k not in keep:
                             continue
                         nid = "%s_%d_" % (idof(net), lo + k)
-                        w('     (net (rename %s "%s[%d]") (joined %s))' % (nid, net["name"], lo + k, " ".join(portref(e) for e in net["bits"][k])))
+                        w('     (net (rename %s "%s[%d]") (joined %s)%s)' % (nid, net["name"], lo + k, " ".join(portref(e) for e in net["bits"][k]), netp))
                 w("    )")
+            if rich:
+                w('    (property VIEWP (boolean (true)))')
             w("   ))")
         w(" )")
     if ad.get("top"):
